@@ -56,9 +56,12 @@ OrdOK(r) ==
 
 \* an element type whose Ord is finer than its PartialOrd (a total-order float key): no definition over codes applies -
 \* each method of the array agrees with the same method of its slice
+\* (the operators and the provided max / min may be derived from either cmp or partial_cmp - std's own choice differs
+\*  between versions - so they are demanded only where this pair of operands is ordered alike by both)
 SliceAgreeOK(r) ==
-    /\ r.cmp = r.scmp /\ r.pcmp = r.spcmp /\ r.eq = r.seq /\ r.lt = r.slt /\ r.ge = r.sge
-    /\ r.max = r.smax /\ r.min = r.smin
+    /\ r.cmp = r.scmp /\ r.pcmp = r.spcmp /\ r.eq = r.seq
+    /\ (r.scmp = r.spcmp) => /\ r.lt = r.slt /\ r.ge = r.sge
+                             /\ r.max = r.smax /\ r.min = r.smin
 
 \* Debug output under any flags equals the slice's (the slice is the oracle; TLA+ carries the equality)
 DbgOK(r) == r.arr = r.slice
